@@ -11,6 +11,22 @@ TB = ("Lean 4.33.0 kernel (+ leanchecker in the thorough tier); axioms propext/C
       "correspondence drivers (T-corr) are unverified programs. ")
 
 CHECKS = {
+    "C12": dict(
+        text=("Proof (Lean 4) over byte-level L1 models of utf8.c, operators.c, ddptypes.c and the compiler's text iteration: for ALL "
+              "scalar values except U+0000 (case split on the four encoding ranges, no enumeration) decode∘encode = id, utf8_num_bytes / "
+              "indicated_num_bytes = encoding length, utf8_num_bytes_char rejects exactly surrogates and >U+10FFFF; for ALL code-point "
+              "sequences: every operation (from_constant, deep_copy, char_to_string, 3 concatenations, replace with shorter/equal/longer "
+              "encoding, slice with clamping, index, length, iteration, equality) maps canonical texts (cap = strlen+1 = block size) to "
+              "canonical texts and computes the corresponding list operation on code points (refinement), equality never reads outside "
+              "a block and decides equality of code-point sequences, hence history independence. Tie: the real C functions (ASan/UBSan "
+              "build of the working tree's runtime) driven through a line protocol against the model: all literals of <=3 code points x "
+              "all operations x all indices -1..len+2, histories of 2/3 operations, all (thorough) / every 61st (quick) scalar value; "
+              "independent code-point monitor on the implementation; one compiled program for iteration/printing at O0-O2."),
+        note=TB + "glibc c32rtomb/mbrtoc32 (aliased UTF-8 locale) modelled as encode/decode; U+0000 excluded (NUL-terminated). "
+             "Fixed defect e5a451a (shrinking replace).",
+        technique="Lean 4 refinement proof (byte-level runtime vs code-point lists) + exhaustive small-domain differential correspondence under ASan",
+        ref="§5 C12",
+    ),
     "C13": dict(
         text=("Proof (Lean 4) over an L1 model of scanner.go transcribed rune by rune: totality, partition of the source into blank gaps "
               "and token texts, literal = covered text, positions = code-point line/column of the text before (all sources, both modes, "
